@@ -450,7 +450,7 @@ theorem C04_c_bit_array_safe_for_every_reduced_capacity (lp cap sl : Nat) (sm : 
   have hc : okCmp false (.vbits lp cap sl sm cS cD lpc) = true := by simpa [okBits, okCmp] using hb
   exact ⟨fun rd off => deField_safe false rd off _ hc, fun capBits off v => serField_noObj false capBits off _ v hc⟩
 
-/-- … and it is exactly the combination "dimension from the macro, comparison against the DSDL literal" that is unsafe:
+/-- … and it is exactly the combination "dimension from the macro, comparison against the DSDL literal" that leaves the object:
     capacity 20 reduced to 2 leaves one byte, a count of 9 is accepted and the second byte is touched. -/
 example : de false (fun off _ => if off = 8 then 9 else 0) (.struct [.prim 8 false, .vbits 8 20 2 true .lit .lit false, .prim 8 false])
     = .oobObject 1 1 := by decide
@@ -527,10 +527,10 @@ theorem C04_c_generated_array_kinds_never_leave_object (cs : Bool) (m : Msg) (hm
 
 /-- The criterion is not too strict: a row that fails it and that the model can express yields, for DSDL capacity 16
     reduced to 1, an input on which the deserializer or the serializer leaves the object. -/
-theorem C04_c_unsafe_array_kind_has_failing_input (r : Row) (h : r.safe = false) (lp eb : Nat) (f : Field)
+theorem C04_c_rejected_array_kind_has_failing_input (r : Row) (h : r.safe = false) (lp eb : Nat) (f : Field)
     (hf : r.field lp eb 16 1 = some f) :
     (∃ rd, (deField r.cs rd 0 f).isOobObject = true) ∨ (∃ capBits v, (serField r.cs capBits 0 f v).isOobObject = true) := by
-  have hu := Row.unsafe_field r h lp eb f hf
+  have hu := Row.rejected_field r h lp eb f hf
   rw [okCmp_iff] at hu
   cases hs : okSer r.cs f with
   | false => exact .inr (serField_oob_of_not_okSer r.cs 0 f hs)
@@ -540,7 +540,7 @@ theorem C04_c_unsafe_array_kind_has_failing_input (r : Row) (h : r.safe = false)
     exact .inl (deField_oob_of_not_okDe r.cs 0 f hu)
 
 /-- non-vacuity: the table has the override rows; a seeded row "bit array dimensioned from the macro, compared with the
-    literal" is expressible and unsafe -/
+    literal" is expressible and fails the criterion -/
 example : (Gen.CArrayKinds.rows.filter fun r => r.override && r.overridable).length = 10 := by decide
 example : (Gen.CArrayKinds.rows.filter fun r => r.isVarr && r.override).all (fun r => r.cs) = true := by decide
 example : ({ kind := "VBool", override := true, little := false, varLen := true, bits := true, overridable := true, storMacro := true,
